@@ -154,6 +154,35 @@ def run(rep, tier, rng):
                            % (j, dest, msg), "case_kind": "whist", "case": c})
             break
     rep.cov["drop_after_failed_finalize_cases"] = len(fcases)
+    # ---- the .shp the COMPLETE writer leaves (by path) when the table refuses some rows (missing field, wrong value type):
+    # whatever becomes of the table, the .shp is a well-formed shapefile of the shapes it accepted
+    import os
+    import pathcases as PC
+    os.environ["SFV_TMP"] = os.path.join(sfv.CACHE, "tmp")
+    os.makedirs(os.environ["SFV_TMP"], exist_ok=True)
+    rcases, rmeta = [], []
+    for code in (shapes.ALL_CODES if tier == "thorough" else rng.sample(shapes.ALL_CODES, 5)):
+        a, b, c2 = shapes.gen_ctor(rng, code, "small", True, 3, 4), shapes.gen_ctor(rng, code, "small", True, 1, 2), shapes.gen_ctor(rng, code, "small", True, 2, 3)
+        for kinds in ([0, 1], [1], [0, 2, 0], [1, 0, 0], [0, 0, 1, 2], [2, 1, 0]):
+            sp = [a, b, c2, a][:len(kinds)]
+            rcases.append(PC.path_case(1, [], b"t.shp", list(zip(kinds, sp)), b"", [(b"t.shp", 1), (b"t.shx", 1)], []))
+            rmeta.append((code, kinds))
+    rimpl = stages.correspondence(rep, "path_refused_rows", dev, rcases, "path(complete writer, rows refused by the table)", vm_sample=20)
+    for c, (code, kinds), r in zip(rcases, rmeta, rimpl):
+        p = PC.parse_path(r, 1, [(b"t.shp", 1), (b"t.shx", 1)], [])
+        if p["status"] != 0 or p["files"][b"t.shp"] in (None, "other"):
+            continue
+        try:
+            m = refesri.strict_decode_shp(p["files"][b"t.shp"][1], require_numbering=True)
+            msg = None if len(m["records"]) == len(kinds) else "holds %d records, %d shapes were accepted" % (len(m["records"]), len(kinds))
+        except refesri.Malformed as e:
+            msg = str(e)
+        if msg:
+            nfail += 1
+            rep.violation({"kind": "oracle", "what": "complete writer, pairs whose rows the table %r (0 accepts, 1 / 2 refuses): the .shp left behind is not a "
+                           "well-formed shapefile of the shapes written: %s" % (kinds, msg), "case_kind": "path", "case": c[:200]})
+            break
+    rep.cov["complete_writer_with_refused_rows_cases"] = len(rcases)
     # files created by path (ShapeWriter::from_path), also at a path that already holds longer files and under dotted /
     # upper-case names: what is left on disk must be exactly the well-formed bytes of the in-memory writer
     P.path_situations(rep, files[:16 if tier != "thorough" else 48], "c02", with_reads=False)
